@@ -1,0 +1,54 @@
+//go:build verif
+// +build verif
+
+package engine
+
+// Contracts for package engine (consumed by /verif/govc; comment-only file).
+
+//@ func (*Gengine).addResult
+//@   props C11 C09 C19
+//@   requires g != nil && g.returnResult != nil
+//@   requires !held(g.lock)
+//@   modifies mapcontents(g.returnResult)
+//@   ensures dom(g.returnResult) == setadd(old(dom(g.returnResult)), name)
+//@   ensures g.returnResult[name] == returnResult
+//@   ensures forall k: string :: k != name ==> g.returnResult[k] == old(g.returnResult[k])
+//@   nopanic
+
+//@ func (*Gengine).Execute
+//@   props C04 C11 C09
+//@   entry nolocks
+//@   requires g != nil
+//@   requires rb != nil ==> wfSorted(rb.Kc)
+//@   ghost S = rb.Kc.SortRules
+//@   ghost cursor int = 0
+//@   ghost failed bool = false
+//@   ghost pend bool = false
+//@   ghost lastRule ref = nil
+//@   ghost lastVal ref = nil
+//@   ghost R = emptyset(string)
+//@   oncall (*base.RuleEntity).Execute
+//@     assert [C04] order: recv == S[cursor] && cursor < len(S)
+//@     assert [C04] stoponerr: b || !failed
+//@     assert [C11] flushed: !pend
+//@     assert [C11] freshmap: fresh(g.returnResult) && dom(g.returnResult) == R
+//@     after failed := failed || callresult.1 != nil
+//@     after cursor := cursor + 1
+//@     after pend := callresult.2
+//@     after lastRule := recv
+//@     after lastVal := callresult.0
+//@   oncall (*Gengine).addResult
+//@     assert [C11] onlyflag: pend && arg0 == lastRule.RuleName && arg1 == lastVal
+//@     after pend := false
+//@     after R := setadd(R, arg0)
+//@   ensures [C04] contall: rb != nil && len(S) > 0 && b ==> cursor == len(S) && ((result != nil) <==> failed)
+//@   ensures [C04] stopfirst: rb != nil && len(S) > 0 && !b ==> (failed ==> result != nil) && (!failed ==> result == nil && cursor == len(S))
+//@   ensures [C04] norules: rb == nil || len(S) == 0 ==> result != nil && cursor == 0
+//@   ensures [C11] resultmap: rb != nil ==> !pend && fresh(g.returnResult) && dom(g.returnResult) == R
+//@   modifies frame rulerun, g.returnResult
+//@   nopanic
+//@   loop 0 invariant cur: cursor == rangeindex + 1 && 0 <= cursor && cursor <= len(S)
+//@   loop 0 invariant err: (len(eMsg) > 0 <==> failed) && (!b ==> !failed)
+//@   loop 0 invariant res: !pend && fresh(g.returnResult) && dom(g.returnResult) == R && g.returnResult != nil
+//@   loop 0 invariant lk: !held(g.lock)
+//@   loop 0 decreases len(S) - rangeindex
